@@ -177,7 +177,7 @@ def validate_reference(seed):
 
 class Rows:
   """Several threads (worldid, efcid_j) of _update_constraint_efc executed from the same initial memory.
-  res[j] = the (force, state, cost) vector returned by the real _eval_constraint call of thread j (None if not reached);
+  res[j] = (guard, (force, state, cost) vector returned by the real _eval_constraint call of thread j, its argument list), None unless exactly one call;
   force[j] / state[j] = what the thread stored; wrote[j] = its store condition."""
 
   def __init__(self, kernel, args, tids, unroll=7):
@@ -194,7 +194,7 @@ class Rows:
 
       def hook(interp, frame, a, captured=captured):
         r = interp.call_pyfunc(solver._eval_constraint.func, a, name="_eval_constraint", caller=frame)
-        captured.append((interp.active(frame), r))
+        captured.append((interp.active(frame), r, list(a)))
         return r
 
       it, _ = kh.run(kernel, args, tid=tid, unroll=unroll, summaries={solver._eval_constraint.key: hook})
@@ -218,11 +218,11 @@ class Rows:
 
   def pre(self, label, *idx, k=0):
     c = self.args[label].cell
-    return c.get(idx, k, snap=c.a0)
+    return c.get(idx, k, snap=c.a0 if c.mode == "array" else c.d0)
 
 
 def make_rows(track_changes, tids_fn, unroll=7, jaref=None):
-  """-> (kernel, args, Rows).  tids_fn(args) -> list of tids.  jaref: optional replacement ArrRef for ctx_Jaref_in."""
+  """array-mode harness (generic indices).  -> (kernel, args, Rows).  tids_fn(args) -> list of tids."""
   from mujoco_warp._src import solver
 
   k = solver._update_constraint_efc(track_changes)
@@ -231,6 +231,70 @@ def make_rows(track_changes, tids_fn, unroll=7, jaref=None):
     args["ctx_Jaref_in"] = jaref
   replay.snapshot_initial(args)
   return k, args, Rows(k, args, tids_fn(args), unroll=unroll)
+
+
+LAYOUTS = {
+  # name: (nworld, world, ne, nf, rows after the contact, naconmax, conid)
+  "A": (2, 1, 1, 1, 1, 2, 1),
+  "B": (1, 0, 0, 0, 0, 1, 0),
+  "C": (3, 2, 2, 0, 2, 3, 0),
+}
+
+
+def make_contact_rows(dim, track_changes=False, layout="A", tag=""):
+  """Concrete-layout (dense memory) harness for one elliptic contact: all integer bookkeeping (counters, types, ids, addresses,
+  contact.dim, done flags) is concrete and laid out as _efc_contact_init / MuJoCo would, all float inputs (efc_D, Jaref,
+  frictionloss, friction, impratio^-1/2) are symbolic.  Threads: the contact's dim rows.  -> dict"""
+  from mujoco_warp._src import solver
+
+  nworld, w, ne, nf, after, ncon, c = LAYOUTS[layout]
+  e0 = ne + nf
+  nefc = e0 + dim + after
+  njmax = nefc
+  nadr = max(1, 2 * (dim - 1))
+  k = solver._update_constraint_efc(track_changes)
+  shapes = {
+    "opt_impratio_invsqrt": [nworld], "ne_in": [nworld], "nf_in": [nworld], "nefc_in": [nworld], "contact_friction_in": [ncon], "contact_dim_in": [ncon],
+    "contact_efc_address_in": [ncon, nadr], "efc_type_in": [nworld, njmax], "efc_id_in": [nworld, njmax], "efc_D_in": [nworld, njmax], "efc_frictionloss_in": [nworld, njmax],
+    "nacon_in": [1], "ctx_Jaref_in": [nworld, njmax], "ctx_ls_exhausted_in": [nworld], "ctx_done_in": [nworld], "efc_force_out": [nworld, njmax], "efc_state_out": [nworld, njmax],
+    "quad_changed_ids_out": [nworld, njmax], "quad_changed_count_out": [nworld], "state_changed_count_out": [nworld],
+  }  # fmt: skip
+  args = kh.make_args(k, shapes=shapes, mode="dense", alias_inout=True, prefix=tag)
+
+  def setint(label, values):
+    cell = args[label].cell
+    flat = list(np.asarray(values).reshape(-1))
+    assert len(flat) == cell.size, (label, len(flat), cell.size)
+    cell.d = [[(bool(v) if cell.dtype == "bool" else int(v)) for v in flat]]
+
+  types = np.full((nworld, njmax), T_LIMIT_JOINT)
+  ids = np.zeros((nworld, njmax), dtype=int)
+  for ww in range(nworld):
+    types[ww, :ne] = T_EQUALITY
+    types[ww, ne : ne + nf] = T_FRICTION_DOF
+  types[w, e0 : e0 + dim] = T_ELLIPTIC
+  ids[w, e0 : e0 + dim] = c
+  adr = np.full((ncon, nadr), -1)
+  adr[c, :dim] = np.arange(e0, e0 + dim)
+  setint("ne_in", [ne] * nworld)
+  setint("nf_in", [nf] * nworld)
+  setint("nefc_in", [nefc] * nworld)
+  setint("contact_dim_in", [dim] * ncon)
+  setint("contact_efc_address_in", adr)
+  setint("efc_type_in", types)
+  setint("efc_id_in", ids)
+  setint("nacon_in", [ncon])
+  setint("ctx_done_in", [False] * nworld)
+  setint("ctx_ls_exhausted_in", [False] * nworld)
+  replay.snapshot_initial(args)
+  R = Rows(k, args, [(w, e0 + j) for j in range(dim)], unroll=7)
+  D = [R.pre("efc_D_in", w, e0 + j) for j in range(dim)]
+  jar = [R.pre("ctx_Jaref_in", w, e0 + j) for j in range(dim)]
+  fr = [R.pre("contact_friction_in", c, k=i) for i in range(5)]
+  imp = R.pre("opt_impratio_invsqrt", w)
+  bg = R.bg + [imp > 0] + [d > 0 for d in D] + [fr[i] > 0 for i in range(dim - 1)]
+  text = f"layout {layout}: nworld={nworld}, world {w}, ne={ne}, nf={nf}, contact {c} of {ncon} on rows {e0}..{e0 + dim - 1}, {after} limit row(s) after, njmax=nefc={nefc}"
+  return dict(k=k, args=args, R=R, w=w, e0=e0, c=c, D=D, jar=jar, fr=fr, imp=imp, mu=fr[0] * imp, bg=bg, text=text, dim=dim)
 
 
 def shape_bg(args, cap=8):
@@ -244,6 +308,9 @@ def shape_bg(args, cap=8):
   return out
 
 
+POSITIVE_INPUTS = ("efc_D_in", "contact_friction_in", "opt_impratio_invsqrt", "efc_frictionloss_in")
+
+
 def launch_replay(pid, unit, name, locator, kernel, args, goal, env=None, extra_note=""):
   """replay callable: the REAL kernel is launched over its whole grid (nworld x njmax) on the arrays of the solver model;
   goal(spec_like, pre, post) -> (ok, text) evaluated on the real outputs (module-level function given as 'module:fn')."""
@@ -255,16 +322,33 @@ def launch_replay(pid, unit, name, locator, kernel, args, goal, env=None, extra_
 
     conc = replay.concretize_args(model, kernel, args)
     specs = kh.arg_specs(kernel)
-    vals, arrays = replay.build_arrays(conc, specs)
-    pre = {k: v.numpy().copy() for k, v in arrays.items()}
-    nworld, njmax = arrays["efc_force_out"].shape
-    k = replay.locate(locator)
-    wp.launch(k, dim=(nworld, njmax), inputs=vals, device="cpu")
-    wp.synchronize()
-    post = {k_: v.numpy().copy() for k_, v in arrays.items()}
     e = {k_: kh.mval(model, v) for k_, v in (env or {}).items()}
     modn, fn = goal.split(":")
-    ok, text = getattr(importlib.import_module(modn), fn)({"env": e, "args": conc}, pre, post)
+    k = replay.locate(locator)
+    rng = np.random.default_rng(12345)
+    # trial 0: the solver's model; further trials keep its integers and re-draw the float inputs inside the preconditions
+    # (the claims quantify over all floats; an argument-level mismatch need not change the outputs on the model's own values)
+    for trial in range(1 + int(e.get("randomize_floats") or 0)):
+      vals, arrays = replay.build_arrays(conc, specs)
+      if trial:
+        for label, arr in arrays.items():
+          a = arr.numpy()
+          if a.dtype.kind == "f" and a.size:
+            r = rng.uniform(0.25, 2.0, size=a.shape)
+            if label not in POSITIVE_INPUTS:
+              r = r * rng.choice([-1.0, 1.0], size=a.shape)
+            arr.assign(r.astype(a.dtype))
+      pre = {k_: v.numpy().copy() for k_, v in arrays.items()}
+      nworld, njmax = arrays["efc_force_out"].shape
+      wp.launch(k, dim=(nworld, njmax), inputs=vals, device="cpu")
+      wp.synchronize()
+      post = {k_: v.numpy().copy() for k_, v in arrays.items()}
+      ok, text = getattr(importlib.import_module(modn), fn)({"env": e, "args": conc}, pre, post)
+      if not ok:
+        if trial:
+          text += f" (float inputs re-drawn, trial {trial})"
+          conc = {"note": "float inputs re-drawn", **{k_: v.tolist() for k_, v in pre.items()}}
+        break
     d = os.path.join(report.VERIF, "replays", pid)
     os.makedirs(d, exist_ok=True)
     path = os.path.join(d, f"{unit}.{name}".replace("/", "_").replace(" ", "_")[:120] + ".json")
